@@ -1,7 +1,8 @@
 //! C17 — bitmap and TheDraw fonts survive every encoding the engine uses.
 //!
 //! Parts:
-//! * `builtin_fonts` (enumerated, exhaustive): every font page 0..=42 and every SAUCE font x every encoding.
+//! * `builtin_fonts` (enumerated, exhaustive): every font page 0..=42 and every SAUCE font x every encoding x
+//!   {as loaded, glyphs edited in place, edited and renamed, renamed}.
 //! * `bitmap` (generated): 8xH font models, H 1..=32, 256 glyphs (512 for PSF2 / IcyDraw), through one of
 //!   psf2 | raw | dcs | xb | xb2 (two fonts, 512-character mode) | adf | idf | icy.
 //! * `tdf` (generated): TheDraw font models through as_tdf_bytes / create_font_bundle (checked with a reference
@@ -15,8 +16,11 @@ fn main() {
     let mut eng = Engine::new("C17");
     eng.rule(
         "bitmap: a case = (font model: height 1..=32, 256|512 glyphs, glyph bytes from a constant / index / xorshift fill plus byte patches plus an explicit head, \
-         ONE encoding of psf2, raw, dcs, xb, xb2, adf, idf, icy, font slot, compress flag, constructor create_8|from_basic); built-in part = every font page 0..=42 and every \
-         SAUCE font name x the same 8 encodings (enumerated). Oracle: decoded size, length and the complete glyph table equal the model (missing and invented glyphs both fail); \
+         ONE encoding of psf2, raw, dcs, xb, xb2, adf, idf, icy, font slot, compress flag, and a construction route independent of both: create_8 | from_basic | from_bytes(raw) | \
+         from_bytes(PSF2) | built-in page or SAUCE font with 1..=8 glyphs edited in place through the public glyph map (name kept, checksum not refreshed) | the same and renamed | built-in renamed only); \
+         built-in part = every font page 0..=42 and every SAUCE font name x the same 8 encodings x {as loaded, edited in place, edited and renamed, renamed} (enumerated). \
+         The expected glyphs are always what the font object reports (glyphs / get_glyph), never a cached field; a failure on a route other than create_8 is re-tried with a create_8 font \
+         of the same glyphs and carries |route=.. in its key only when that passes. Oracle: decoded size, length and the complete glyph table equal the model (missing and invented glyphs both fail); \
          the written bytes are also compared with the format documents (PSF2 header, XBin/ADF/IDF font block, CTerm font DCS). \
          tdf: a case = 1..=34 font models (type, name 0..=12 chars, spacing 0..=40, 0..=94 glyphs of 1..=30 x 1..=12 given as rows of cells) and a mode: as_tdf_bytes, create_font_bundle \
          (output decoded by the harness' TDF decoder and read back by from_tdf_bytes) or harness TDF encoder -> from_tdf_bytes (glyph records in order / reversed, with / without final zero). \
